@@ -341,6 +341,10 @@ impl HttpConnection {
     }
 
     pub async fn send(&self, body: EncodedPayload, timeout: Duration) -> Result<Vec<u8>, Error> {
+        // Verification hook: shrink the request timeout by the same process-wide divisor as the batcher's delays
+        #[cfg(emit_rs_emit_verif)]
+        let timeout = timeout / std::cmp::max(1, emit_batcher::verif::delay_divisor());
+
         let res = tokio::time::timeout(timeout, async {
             let mut sender = match self.poison() {
                 Some(sender) => sender,
